@@ -1,7 +1,7 @@
 /-
 pm_c22: model driver for C22.  Ops (one per line), see harness/cmd/c22/main.go:
   init <members csv> <h>      h = 4 groups of 7 digits, '.'-separated (placement table)
-  join <node> | leave <node> | complete <job> <node> <ok|err> | abort | failsend <0|1>
+  join <node> | leave <node> | complete <job> <node> <ok|err> | abort | failsend <-|*|csv of nodes>
 After each event the internal steps are run to quiescence (`settle`) and the observation
   <ret> st=<N|R> nodes=.. cur=.. q=.. lis=<idle|wait|lock|busy> jobs=<k>:<a|r>:<n|R|D|A>:<pending>;.. par=<n>
 is printed; `#spec` is the observation the property demands, `#tag` the modelled cause when they differ.
@@ -82,8 +82,10 @@ def stepD (od : Option DSt) (ws : List String) : Option DSt × Ans :=
     | _, _ => bad
   | some d, ["abort"] => let (d', a) := deliver d .abort; (some d', a)
   | some d, ["failsend", b] =>
-    if b ≠ "0" && b ≠ "1" then bad else
-    let (d', a) := deliver d (.failsend (b == "1")); (some d', a)
+    let ns? : Option (List Nat) := if b = "*" then some (List.range 10) else csvNats? b
+    match ns? with
+    | some ns => if ns.any (· > 9) then bad else let (d', a) := deliver d (.failsend ns); (some d', a)
+    | none => bad
   | _, _ => bad
 
 def main : IO Unit := run (none : Option DSt) stepD
